@@ -31,3 +31,25 @@ Theorem C16_only_unary_clients_defer : forall c,
   end_must_be_in_headers c = true <-> match c with CConnectPost | CConnectGet | CRest => True | _ => False end.
 Proof. destruct c; cbn; split; auto; discriminate. Qed.
 Print Assumptions C16_only_unary_clients_defer.
+
+(** * The request direction *)
+From VG Require Import Model.Stream Model.Reader Proofs.ProgressProofs.
+
+(** While an envelope or a prepared message is being handed to the backend, Read returns bytes at
+    once and does not touch the client's body (so it cannot block on it). *)
+Theorem C16_request_message_served_from_buffer : forall f cx o r k,
+  tr_err r = None -> 1 <= k -> (tr_envrem r <= length (tr_env r))%nat ->
+  ((0 < tr_envrem r)%nat \/ exists b, tr_buf r = Some b /\ b <> []) ->
+  let '((d, st), r') := tr_read f cx o r k in d <> [] /\ st = SOk /\ tr_up r' = tr_up r.
+Proof. exact tr_read_served_from_buffer. Qed.
+Print Assumptions C16_request_message_served_from_buffer.
+
+(** On the re-framing path a Read inside a message takes from the client's body exactly the bytes it
+    hands over and never reads on into the next envelope: message k reaches the backend without
+    waiting for message k+1. *)
+Theorem C16_reframing_reader_stays_inside_the_message : forall cx r k n,
+  er_err r = None -> er_envrem r = 0%nat -> er_cur r = CExact n -> 0 < n -> 1 <= k -> flat (er_up r) <> [] ->
+  let '((d, st), r') := er_read cx r k in
+  d <> [] /\ zlen d <= n /\ zlen d <= k /\ flat (er_up r) = d ++ flat (er_up r').
+Proof. exact er_read_stays_inside_the_message. Qed.
+Print Assumptions C16_reframing_reader_stays_inside_the_message.
